@@ -256,7 +256,7 @@ PROPS = {
     },
     "C05": {
         "lean_modules": ["TableauVerif.Props.C05"],
-        "oracles": ["c05.typeinfos", "c05.gen", "c13.dry"],
+        "oracles": ["c05.typeinfos", "c05.gen", "c13.dry", "c11.merge", "c04.det"],
         "streams": [
             ("replay.C05.typeinfos", 2, 12, 1),
             ("e2e.C05", 24, 400, 4),
@@ -264,7 +264,16 @@ PROPS = {
             # other and of the schedule (a violation shows as differing previews or as a crash of the worker)
             ("e2e.C13.dryrun", 30, 1000),
         ],
+        # the same ops once more through a harness built with Go's race detector: an unsynchronised access to shared
+        # state on an exercised path ends the worker and fails the op
+        "race_streams": [
+            ("e2e.C05", 12, 200, 4),
+            ("e2e.C13.dryrun", 12, 300, 4),
+            ("e2e.C11.merge", 16, 400, 4),
+            ("e2e.C04.determinism", 8, 100, 4),
+        ],
         "assumptions": [
+            "race streams: Go's race detector sees only the interleavings and paths the generated runs exercise (no proof of race freedom); the lock discipline obligations cover the registries and caches for all schedules",
             "the lock programs are regenerated from the Go source (type-checked with go/packages) on every run; the discipline predicates over them are kernel-evaluated obligations",
             "abstraction: the Go scheduler realises one of the interleavings the thread model quantifies over; Go memory model, sync.Pool internals and library goroutines are trusted; data-race freedom beyond the lock discipline is not proved (partial)",
             "interface-method calls and calls through function values are not resolved statically: those made under a lock are pinned one by one (locks_dyn_calls_pinned)",
